@@ -261,7 +261,7 @@ fn injected_call(log: &strace::Log, fault: &Fault) -> Result<Option<u32>, String
 // ------------------------------------------------------------------------------------------------
 
 fn spec_text(s: &Spec) -> String {
-    format!("{} {}{} {}", TY_NAMES[(s.ty.min(NTY - 1)) as usize], if s.panic { "panic" } else { "return" }, if s.spurious { " after a spurious wake-up on its exit futex" } else if s.stall_k > 0 { " with stalled epilogue" } else { "" }, DISP_NAMES[s.disp.min(4) as usize])
+    format!("{} {}{} {}", TY_NAMES[(s.ty.min(NTY - 1)) as usize], if s.panic { "panic" } else { "return" }, if s.spurious { " after a spurious wake-up on its exit futex" } else if s.signal_joiner { " after interrupting the joiner with a signal (no SA_RESTART)" } else if s.stall_k > 0 { " with stalled epilogue" } else { "" }, DISP_NAMES[s.disp.min(4) as usize])
 }
 
 /// Outcome-independent part: crash / deadlock / infrastructure. Returns false when the reports must not be judged.
@@ -386,6 +386,7 @@ fn judge_c05(env: &Env, case: &Case, out: &Outcome, injected: Option<u32>, fails
                     fails.push(f(format!("join|returned while the thread was still running its epilogue|{}", if s.panic { "panicked" } else { "returned" }), format!("{ctxt}: join came back while the thread was still asleep inside a free of its epilogue (stalled free #{} of {} ns): join must block until the thread has finished", sr.stall_obs >> 4, s.stall_ns)));
                 }
             }
+            rep.class_if(s.signal_joiner, "joiner-interrupted-by-a-signal-while-parked");
             if s.spurious {
                 rep.class_if(sr.woke == 1, "spurious-wake-delivered-to-parked-joiner");
                 rep.class_if(sr.woke == 2, "spurious-wake-found-nobody-parked");
@@ -821,7 +822,7 @@ fn spec_strategy(c06: bool) -> impl Strategy<Value = Spec> {
         (-40_000i64..200_000, prop::bool::weighted(0.12), 200_000u32..1_500_000, prop::bool::weighted(0.10), 1u8..=2, 200_000u32..700_000),
     )
         .prop_map(|(ty, panic, disp, inline, cd, pd, buflen, tag, (jitter, spurious, sp_delay, stall, stall_k, stall_ns))| {
-            let mut s = Spec { ty, panic, disp, inline, child_delay: cd, parent_delay: pd, buflen, tag, spurious: false, stall_ns: 0, stall_k: 0, reuse: false, join_in_print: false, nested: 0, drop_first: false };
+            let mut s = Spec { ty, panic, disp, inline, child_delay: cd, parent_delay: pd, buflen, tag, spurious: false, stall_ns: 0, stall_k: 0, reuse: false, join_in_print: false, nested: 0, drop_first: false, signal_joiner: false };
             if spurious && !panic && (disp == DISP_JOIN || disp == DISP_KEEP_END) {
                 // the thread sleeps first so that the joiner is parked when the spurious wake-up arrives
                 s.spurious = true;
@@ -892,7 +893,7 @@ fn fault_case_strategy(builds: Vec<&'static str>) -> impl Strategy<Value = Case>
 }
 
 fn sp(ty: u8, panic: bool, disp: u8, inline: bool, cd: Delay, pd: Delay, buflen: u16, tag: u64) -> Spec {
-    Spec { ty, panic, disp, inline, child_delay: cd, parent_delay: pd, buflen, tag, spurious: false, stall_ns: 0, stall_k: 0, reuse: false, join_in_print: false, nested: 0, drop_first: false }
+    Spec { ty, panic, disp, inline, child_delay: cd, parent_delay: pd, buflen, tag, spurious: false, stall_ns: 0, stall_k: 0, reuse: false, join_in_print: false, nested: 0, drop_first: false, signal_joiner: false }
 }
 
 /// The four fixed small batches of the fault enumeration.
@@ -968,6 +969,18 @@ fn spurious_batch() -> Batch {
     for (k, ty) in [2u8, 0, 8, 9, 5, 7].into_iter().enumerate() {
         let mut s = sp(ty, false, DISP_JOIN, true, Delay::Sleep(400_000 + 150_000 * k as u32), Delay::None, 32, 0x5b00 + k as u64);
         s.spurious = true;
+        specs.push(s);
+    }
+    Batch { specs }
+}
+
+/// One batch in which every thread interrupts its parked joiner with a signal whose handler does not restart
+/// system calls (the futex wait of the join returns EINTR although nothing happened to the thread) and then runs on.
+fn signal_batch() -> Batch {
+    let mut specs = Vec::new();
+    for (k, ty) in [2u8, 0, 8, 9, 5, 13].into_iter().enumerate() {
+        let mut s = sp(ty, false, DISP_JOIN, true, Delay::Sleep(500_000 + 100_000 * k as u32), Delay::None, 32, 0x5c00 + k as u64);
+        s.signal_joiner = true;
         specs.push(s);
     }
     Batch { specs }
@@ -1127,7 +1140,7 @@ pub fn run(ctx: &Ctx) {
     } else if !ctx.is_replay() {
         for (k, build) in builds.iter().enumerate() {
             if k as u32 % ctx.nworkers == ctx.worker {
-                let case = Case { build: build.to_string(), strace: false, fault: None, batches: vec![spurious_batch(), spurious_batch()] };
+                let case = Case { build: build.to_string(), strace: false, fault: None, batches: vec![spurious_batch(), signal_batch(), spurious_batch(), signal_batch()] };
                 if !ctx.run_one("spurious", &case, || run_case(&env, &case)) {
                     break;
                 }
